@@ -337,8 +337,14 @@ impl RtMessage {
             result.push_str(") = ");
 
             if tag.is_nested() {
-                let nested_msg = RtMessage::from_bytes(value).unwrap();
-                result.push_str(&nested_msg.to_string(indent_level + 1))
+                match RtMessage::from_bytes(value) {
+                    Ok(nested_msg) => result.push_str(&nested_msg.to_string(indent_level + 1)),
+                    Err(_) => {
+                        // value is not a well-formed nested message; show it as raw hex
+                        result.push_str(&HEX.encode(value));
+                        result.push('\n');
+                    }
+                }
             } else {
                 result.push_str(&HEX.encode(value));
                 result.push('\n');
